@@ -290,6 +290,62 @@ def check_aliases(case, ctx):
         raise Violation(f"defocus = {obj.defocus!r} but C10 = {expected['C10']!r}", ("alias", "defocus"))
 
 
+# ----------------------------------------------------------------------- claim 3b: the "scherzer" defocus string
+@st.composite
+def scherzer_case(draw):
+    return {
+        "energy": draw(gen.energies()),
+        "C30": draw(st.sampled_from([1e4, -1e4, 1.3e7]) | gen.floats(-2e7, 2e7).map(lambda v: round(v, 1))),
+        "cs_name": draw(st.sampled_from(["C30", "Cs"])),
+        "spelling": draw(st.sampled_from(["scherzer", "Scherzer", "SCHERZER"])),
+        "how": draw(st.sampled_from(["kwargs", "dict", "set_aberrations"])),
+        "cls": draw(st.sampled_from(CLASSES + ["SpatialEnvelope"])),
+    }
+
+
+@claim(
+    "C21",
+    "scherzer_defocus_alias",
+    scherzer_case,
+    quick=400,
+    thorough=8000,
+    tol="exact",
+    rule="C30 != 0 (the Scherzer defocus is non-zero)",
+    nontrivial_floor=0.5,
+)
+def check_scherzer(case, ctx):
+    """`defocus="scherzer"` is documented as the one string value a coefficient accepts and
+    means the number ``scherzer_defocus(Cs, energy)``.  Addressed through the alias
+    ``defocus`` it must behave as that number does: defocus == value, C10 == -value, and the
+    object equals the one built with the number (statement: "defocus is the negative of C10
+    and named aliases address the same coefficients")."""
+    import abtem.transfer as T
+
+    cls = getattr(T, case["cls"])
+    energy, c30 = case["energy"], case["C30"]
+    pre = {"angular_spread": 1.0} if case["cls"] == "SpatialEnvelope" else {}
+    value = float(T.scherzer_defocus(c30, energy))
+    ctx.label(case["cls"])
+    ctx.label("how=" + case["how"])
+    ctx.label("negative_Cs", c30 < 0)
+    ctx.nontrivial(c30 != 0.0)
+    # the spherical aberration is set first: the string is resolved when it is assigned
+    if case["how"] == "kwargs":
+        obj = cls(energy=energy, **pre, **{case["cs_name"]: c30, "defocus": case["spelling"]})
+    elif case["how"] == "dict":
+        obj = cls(aberration_coefficients={case["cs_name"]: c30, "defocus": case["spelling"]}, energy=energy, **pre)
+    else:
+        obj = cls(energy=energy, **pre, **{case["cs_name"]: c30})
+        obj.set_aberrations({"defocus": case["spelling"]})
+    num = cls(energy=energy, **pre, **{case["cs_name"]: c30, "defocus": value})
+    if not (obj.defocus == value):
+        raise Violation(f"defocus={case['spelling']!r} with {case['cs_name']}={c30} at {energy} eV gives defocus {obj.defocus!r}, scherzer_defocus gives {value!r}", ("scherzer", "defocus"))
+    if not (obj.C10 == -value):
+        raise Violation(f"defocus={case['spelling']!r} gives C10 {obj.C10!r}, expected {-value!r}", ("scherzer", "C10"))
+    if dict(obj.aberration_coefficients) != dict(num.aberration_coefficients):
+        raise Violation("object built with defocus='scherzer' differs from the one built with the number", ("scherzer", "coefficients"))
+
+
 # ----------------------------------------------------------------------- claim 4: rotation law
 @st.composite
 def rotation_case(draw):
